@@ -200,6 +200,23 @@ def run(ctx):
             continue
         regs = [e for e in vw.path_events(p) if e.kind == 'call' and e.q.endswith('::register_simcall')]
         ctx.check(len(regs) == 1, 'R4', 'wait_for registers the simcall exactly once', where(wf), 'x%d' % len(regs), key='R4|wait_for|registrations')
+    # an acquisition granted before its issuer waits on it (asynchronous acquire, or the separate simcalls of MC mode) is finished at once, without arming anything
+    ng = 0
+    for p in vw.paths():
+        if p.exit in ('noreturn', 'cut', 'throw'):
+            continue
+        evs = vw.path_events(p)
+        gr = [e.pol for e in evs if e.kind == 'branch' and e.atom[0] == 'truthy' and e.atom[1][0] == 'field' and e.atom[1][2].endswith('::granted_')]
+        fins = [e for e in evs if e.kind == 'call' and e.q == ACQ + '::finish']
+        armed = [e for e in evs if (e.kind == 'call' and e.q.endswith('::sleep')) or (e.kind == 'assign' and e.lhs[0] == 'field' and e.lhs[2].endswith('mc_timeout_'))]
+        if gr == [True]:
+            ng += 1
+            ctx.check(len(fins) == 1 and not armed, 'R4', 'wait_for on an acquisition already granted finishes at once and arms no timeout', where(wf), 'finish x%d, armed x%d' % (len(fins), len(armed)),
+                      key='R4|wait_for|granted before waiting')
+        elif not gr:
+            ng -= 100
+    ctx.check(ng >= 1, 'R4', 'wait_for tests granted_ on every path', where(wf), 'a signal that arrived before the waiter blocked is not lost' if ng >= 1 else
+              'some path does not look at granted_: a signal that arrived before the waiter blocked is lost and the waiter sleeps for ever', key='R4|wait_for|granted before waiting')
     for f in P.fns_named('simgrid::s4u::ConditionVariable::wait'):
         vv = A.view(f)
         for p in vv.paths():
